@@ -156,6 +156,7 @@ type LockAnalysis struct {
 	escapes map[*ssa.Function]string
 	skip    func(fn *ssa.Function) bool
 	acqMemo map[*ssa.Function]map[string]LockMode
+	netMemo map[*ssa.Function][2]interface{}
 }
 
 type callerSite struct {
@@ -418,6 +419,18 @@ func (la *LockAnalysis) analyse(fn *ssa.Function) {
 					cur[key] = mode
 				} else {
 					delete(cur, key)
+				}
+				continue
+			}
+			// wrappers: a repository function that returns with a lock held on all paths acquires it for the caller; one that
+			// unlocks a lock it did not take releases it
+			if sc := ci.Common().StaticCallee(); sc != nil && sc != fn && InRepo(sc) && sc.Blocks != nil {
+				acq, rel := la.netEffect(sc)
+				for k, m := range acq {
+					cur[k] = m
+				}
+				for k := range rel {
+					delete(cur, k)
 				}
 			}
 		}
@@ -846,4 +859,74 @@ func (la *LockAnalysis) ReachedOnlyFrom(fn *ssa.Function, allowed map[*ssa.Funct
 		return true
 	}
 	return up(fn, 0)
+}
+
+// netEffect summarises a small wrapper: the locks held at every return that were taken inside (acquired for the caller) and the locks
+// unlocked without having been taken inside (released for the caller). Only direct lock operations of the function count.
+func (la *LockAnalysis) netEffect(fn *ssa.Function) (acq map[string]LockMode, rel map[string]bool) {
+	if la.netMemo == nil {
+		la.netMemo = map[*ssa.Function][2]interface{}{}
+	}
+	if m, ok := la.netMemo[fn]; ok {
+		return m[0].(map[string]LockMode), m[1].(map[string]bool)
+	}
+	acq, rel = map[string]LockMode{}, map[string]bool{}
+	la.netMemo[fn] = [2]interface{}{acq, rel} // recursion guard
+	hasOp := false
+	deferred := map[string]bool{}
+	for _, b := range fn.Blocks {
+		for _, in := range b.Instrs {
+			ci, ok := in.(ssa.CallInstruction)
+			if !ok {
+				continue
+			}
+			if key, a, _, ok := lockOp(ci); ok {
+				hasOp = true
+				if _, isDefer := ci.(*ssa.Defer); isDefer && !a {
+					deferred[key] = true
+				}
+			}
+		}
+	}
+	if !hasOp || len(fn.Blocks) > 12 {
+		return acq, rel
+	}
+	la.analyse(fn)
+	first := true
+	for _, r := range Returns(fn) {
+		held := la.before[r]
+		if first {
+			for k, m := range held {
+				if !deferred[k] {
+					acq[k] = m
+				}
+			}
+			first = false
+			continue
+		}
+		for k := range acq {
+			if _, ok := held[k]; !ok {
+				delete(acq, k)
+			}
+		}
+	}
+	// releases: an Unlock of a key that is not in the must-lockset at that point
+	for _, b := range fn.Blocks {
+		for _, in := range b.Instrs {
+			ci, ok := in.(ssa.CallInstruction)
+			if !ok {
+				continue
+			}
+			if _, isDefer := ci.(*ssa.Defer); isDefer {
+				continue
+			}
+			if key, a, _, ok := lockOp(ci); ok && !a {
+				if _, held := la.before[ci][key]; !held {
+					rel[key] = true
+				}
+			}
+		}
+	}
+	la.netMemo[fn] = [2]interface{}{acq, rel}
+	return acq, rel
 }
